@@ -119,7 +119,7 @@ impl<'a> ExpressionEvaluator<'a> {
                     ));
                 };
                 Ok(vec![DataType::Bool(Bool(
-                    matches!(evaluated[0], DataType::Null) || *negated,
+                    matches!(evaluated[0], DataType::Null) != *negated,
                 ))])
             }
             BoundExpression::Between {
